@@ -79,6 +79,25 @@ def run(repo, chk):
         q = Q.reachable_without(g, d, avoid_node=lambda n: n in rel, avoid_edge=absent)
         chk.ob('c', cl.ref, f'`{full}` holds nothing for the socket when disconnect is fired', q is None and bool(rel), loc(cl, d.ast),
                path=pat.path_lines(q) if q else None, discr=f'released:{attr}')
+    # containers released with list.remove() lose one occurrence per call: handlers that can run repeatedly for the same socket must not add it twice
+    for attr in sorted(conts):
+        if 'append' not in conts[attr]:
+            continue
+        full = f'self.{attr}'
+        for m in srv.methods.values():
+            if m.handler is None:
+                continue
+            gm = m.cfg()
+            for n in gm.nodes:
+                if n.kind != 'stmt':
+                    continue
+                for r, c in pat.method_calls(n.ast, 'append'):
+                    if r == full and c.args and src(c.args[0]) in SOCK_VARS:
+                        sv_ = src(c.args[0])
+                        q = pat.guarded_by(gm, n, pat.test_edge(lambda tt, pol: pat.fact_matches(pat.compare_fact(tt, pol), sv_, ('not in',), full)))
+                        chk.touch(m)
+                        chk.ob('c', m.ref, f'a socket is put on `{full}` at most once (the entry is removed one occurrence at a time)', q is None, loc(m, c),
+                               path=pat.path_lines(q) if q else None, discr=f'single-entry:{attr}')
     pd = [n for n in g.nodes if n.kind == 'stmt' and any(r == 'self._poller' and [src(a) for a in c.args] == [sock] for r, c in pat.method_calls(n.ast, 'discard'))]
     sc = [n for n in g.nodes if n.kind == 'stmt' and any(r == sock for r, _c in pat.method_calls(n.ast, 'close'))]
     q = Q.reachable_without(g, d, avoid_node=lambda n: n in pd)
